@@ -23,9 +23,9 @@ theorem tableOK : TableOK where
 
 /-- concrete values of the generated precedence table (documentation of the alignment) -/
 theorem precedence_values :
-    precedence .tElvis = 0 ∧ precedence .tOr = 1 ∧ precedence .tAnd = 2 ∧ precedence .tEq = 3 ∧
-    precedence .tAdd = 4 ∧ precedence .tSub = 4 ∧ precedence .tMul = 5 ∧ precedence .tNot = 6 ∧
-    precedence .tNegate = 6 := by decide
+    precedence .tElvis = 0 ∧ precedence .tOr = 1 ∧ precedence .tAnd = 2 ∧ precedence .tEq = 3 ∧ precedence .tLt = 4 ∧
+    precedence .tAdd = 5 ∧ precedence .tSub = 5 ∧ precedence .tMul = 6 ∧ precedence .tNot = 7 ∧
+    precedence .tNegate = 7 := by decide
 
 /-- lexer-facing half (with `Props.C17.minus_context`): after every token that can precede an operand in
     printed tokens the lexer reads `-` as unary minus / the sign of a number (`lexNegative`, probed on
